@@ -439,9 +439,13 @@ func c18Judge(w *W, src string, cmds []ast.Command, cfgs []*printer.Config, faul
 		}
 		// the (reflection based) deep comparison is done after the configs that select a different
 		// code path (every one that changes Then/Do/Case/Redir/Assign = every 4th) and after the last
-		if ci%4 == 3 || ci == len(cfgs)-1 || printerFamily == "WG" && cfgs[ci+1] == nil {
+		every := 4
+		if printerQuick {
+			every = 32 // quick tier: after the first four configurations, then after every 32nd and after the last
+		}
+		if ci%every == 3 || ci == len(cfgs)-1 || printerFamily == "WG" && cfgs[ci+1] == nil {
 			if after := dumpAST(cmds, true); after != before {
-				w.Violation("tree-modified", printCase{src, ci}, fmt.Sprintf("Fprint under %s (or one of the 3 configs before it) modified the tree parsed from %q\n before %s\n after  %s", configName(ci), src, before, after))
+				w.Violation("tree-modified", printCase{src, ci}, fmt.Sprintf("Fprint under %s (or one of the configs since the previous comparison) modified the tree parsed from %q\n before %s\n after  %s", configName(ci), src, before, after))
 				return
 			}
 		}
